@@ -22,6 +22,10 @@
 
 static uint8_t *body;
 static size_t body_len;
+static uint8_t *body2;          /* second transfer of "e2e b11": its own byte stream */
+static size_t body2_len;
+static uint8_t app_tok2[8];
+static size_t app_tok2_len;
 static coap_context_t *srv, *cli;
 static coap_endpoint_t *ep;
 static coap_session_t *cs;
@@ -50,7 +54,12 @@ static void show_large(const coap_pdu_t *p) {
   const uint8_t *d = NULL;
   int r = coap_get_data_large(p, &len, &d, &off, &total);
   char eq = '?';
-  if (r && d) eq = (off + len <= body_len && memcmp(d, body + off, len) == 0) ? '=' : '!';
+  if (r && d) {
+    eq = (off + len <= body_len && memcmp(d, body + off, len) == 0) ? '=' : '!';
+    if (body2 && total == body2_len && off + len <= body2_len && memcmp(d, body2 + off, len) == 0 &&
+        !(eq == '=' && total == body_len))
+      eq = '+';                /* equals the second transfer's body at that offset */
+  }
   printf("%zu:%zu:%zu:%08x:%c", off, total, len, d ? fnv(d, len) : 0, eq);
 }
 
@@ -92,7 +101,8 @@ static coap_response_t hnd_resp(coap_session_t *s, const coap_pdu_t *sent, const
   coap_bin_const_t t = coap_pdu_get_token(rcv);
   printf("HC:%u:", coap_pdu_get_code(rcv));
   show_tok(rcv);
-  printf(":%c:", (t.length == app_tok_len && memcmp(t.s, app_tok, app_tok_len) == 0) ? 'T' : 'F');
+  printf(":%c:", (t.length == app_tok_len && memcmp(t.s, app_tok, app_tok_len) == 0) ? 'T' :
+         (body2 && t.length == app_tok2_len && memcmp(t.s, app_tok2, app_tok2_len) == 0) ? 'U' : 'F');
   show_large(rcv); fputc(':', stdout);
   show_blk(rcv, COAP_OPTION_BLOCK1); fputc(':', stdout);
   show_blk(rcv, COAP_OPTION_BLOCK2);
@@ -107,7 +117,8 @@ static void hnd_nack(coap_session_t *s, const coap_pdu_t *sent, const coap_nack_
   if (!sent) { printf("-:N "); return; }     /* e.g. a Reset for a message no longer queued */
   coap_bin_const_t t = coap_pdu_get_token(sent);
   show_tok(sent);
-  printf(":%c ", (t.length == app_tok_len && memcmp(t.s, app_tok, app_tok_len) == 0) ? 'T' : 'F');
+  printf(":%c ", (t.length == app_tok_len && memcmp(t.s, app_tok, app_tok_len) == 0) ? 'T' :
+         (body2 && t.length == app_tok2_len && memcmp(t.s, app_tok2, app_tok2_len) == 0) ? 'U' : 'F');
 }
 
 static int ev_srv(coap_session_t *s, coap_event_t e) {
@@ -186,7 +197,9 @@ static void deliver(size_t i) {
 }
 
 static void e2e(void) {
-  dir_b2 = !strcmp(vtok[1], "b2");
+  dir_b2 = !strncmp(vtok[1], "b2", 2);       /* "b1s"/"b2s": the same transfer, slow-success class */
+  body2 = NULL;
+  body2_len = 0;
   body_len = (size_t)atol(vtok[2]);
   long seed = atol(vtok[3]);
   int type = atoi(vtok[4]);
@@ -251,11 +264,39 @@ static void e2e(void) {
   }
   show_state();
 
+  /* "e2e b11 ... <sched> <len2> <startB>": a second PUT to the same resource on the same session,
+   * sent when the datagram log has reached startB entries (0 = at once) */
+  int two = !strcmp(vtok[1], "b11") && vntok >= 15;
+  size_t start_b = 0;
+  int sent_b = 1;
+  body2 = NULL;
+  if (two) {
+    body2_len = (size_t)atol(vtok[13]);
+    start_b = (size_t)atol(vtok[14]);
+    body2 = (uint8_t *)malloc(body2_len ? body2_len : 1);
+    for (size_t i = 0; i < body2_len; i++) body2[i] = (uint8_t)fill_byte(seed + 1, (long)i);
+    sent_b = 0;
+  }
   size_t next = 0;
   coap_tick_t last_activity = vn_now;
   const char *why = "idle";
   for (long steps = 0;; steps++) {
-    if (steps > 400000 || vn_nout > 4 * (body_len / 16) + 600) { why = "steps"; break; }
+    if (steps > 400000 || vn_nout > 4 * ((body_len + body2_len) / 16) + 600) { why = "steps"; break; }
+    if (!sent_b && (vn_nout >= start_b || (next >= vn_nout && nheld == 0))) {
+      coap_pdu_t *p2 = coap_new_pdu(type ? COAP_MESSAGE_NON : COAP_MESSAGE_CON, COAP_REQUEST_CODE_PUT, cs);
+      coap_session_new_token(cs, &app_tok2_len, app_tok2);
+      coap_add_token(p2, app_tok2_len, app_tok2);
+      coap_add_option(p2, COAP_OPTION_URI_PATH, 1, (const uint8_t *)"t");
+      printf("TOK2:");
+      for (size_t i = 0; i < app_tok2_len; i++) printf("%02x", app_tok2[i]);
+      fputc(' ', stdout);
+      int ok2 = coap_add_data_large_request(cs, p2, body2_len, body2, rel_c, NULL);
+      printf("ADL:%d ", ok2);
+      if (ok2) printf("SEND:%d ", coap_send(cs, p2));
+      else coap_delete_pdu(p2);
+      sent_b = 1;
+      continue;
+    }
     if (next < vn_nout) {
       size_t i = next++;
       char act = i < nsched ? sched[i] : '.';
@@ -307,6 +348,199 @@ static void e2e(void) {
   printf("FIN:%d:%d:%zu\n", n_rel_c, n_rel_s, vn_nout);
   free(body);
   body = NULL;
+  free(body2);
+  body2 = NULL;
+  body2_len = 0;
+}
+
+
+/* ------------------------------------------------------------------ scripted peer
+ * peer b1 <len> <seed> <srv_szx> <single_srv> <item>...   raw Block1 PUTs into the real server
+ * peer b2 <len> <seed> <cli_szx> <single_cli> <item>...   raw Block2 2.05s into the real client
+ *   item = num/m/szx/size/off/len/tag : Block option, Size1|Size2 ('-' = absent), payload =
+ *          body[off, off+len), tag = Request-Tag (b1) | ETag (b2), '-' = absent
+ * one result token per item:  D:<len>:<fnv> delivered body | C | F (4.08) | J (4.00/4.02) |
+ *                             P:<len>:<fnv> handed on as it is | E<code> other error
+ */
+static int peer_hs, peer_hc;
+static char peer_res[128];
+static long peer_seed;
+
+/* the body that goes with Request-Tag / ETag t: its own byte stream, so that mixing shows */
+static uint8_t peer_byte(unsigned long t, size_t i) { return (uint8_t)fill_byte(peer_seed + (long)t, (long)i); }
+
+static char peer_eq(unsigned long t, const uint8_t *d, size_t len) {
+  if (len != body_len) return '!';
+  for (size_t i = 0; i < len; i++) if (d[i] != peer_byte(t, i)) return '!';
+  return '=';
+}
+
+static void hnd_put_peer(coap_resource_t *r, coap_session_t *s, const coap_pdu_t *req,
+                         const coap_string_t *q, coap_pdu_t *resp) {
+  size_t len = 0, off = 0, total = 0;
+  const uint8_t *d = NULL;
+  coap_block_b_t b;
+  (void)s; (void)q;
+  coap_get_data_large(req, &len, &d, &off, &total);
+  peer_hs++;
+  coap_opt_iterator_t oi;
+  coap_opt_t *o = coap_check_option(req, COAP_OPTION_RTAG, &oi);
+  unsigned long t = o ? coap_decode_var_bytes(coap_opt_value(o), coap_opt_length(o)) : 0;
+  coap_str_const_t *up = coap_resource_get_uri_path(r);
+  if (up && up->length == 1 && up->s[0] == 'u') t += 50;      /* bodies of resource u */
+  if (coap_get_block_b(NULL, req, COAP_OPTION_BLOCK1, &b))
+    snprintf(peer_res, sizeof(peer_res), "P:%zu:%08x", len, fnv(d, d ? len : 0));
+  else
+    snprintf(peer_res, sizeof(peer_res), "D:%zu:%08x:%c", len, fnv(d, d ? len : 0), peer_eq(t, d, d ? len : 0));
+  coap_pdu_set_code(resp, COAP_RESPONSE_CODE_CHANGED);
+}
+
+static coap_response_t hnd_resp_peer(coap_session_t *s, const coap_pdu_t *sent, const coap_pdu_t *rcv,
+                                     const coap_mid_t mid) {
+  size_t len = 0, off = 0, total = 0;
+  const uint8_t *d = NULL;
+  coap_block_b_t b;
+  unsigned code = coap_pdu_get_code(rcv);
+  (void)s; (void)sent; (void)mid;
+  coap_get_data_large(rcv, &len, &d, &off, &total);
+  peer_hc++;
+  coap_opt_iterator_t oi;
+  coap_opt_t *o = coap_check_option(rcv, COAP_OPTION_ETAG, &oi);
+  unsigned long t = o ? (unsigned long)coap_decode_var_bytes8(coap_opt_value(o), coap_opt_length(o)) : 0;
+  if (code == 69 && coap_get_block_b(NULL, rcv, COAP_OPTION_BLOCK2, &b))
+    snprintf(peer_res, sizeof(peer_res), "P:%zu:%08x", len, fnv(d, d ? len : 0));
+  else if (code == 69)
+    snprintf(peer_res, sizeof(peer_res), "D:%zu:%08x:%c", len, fnv(d, d ? len : 0), peer_eq(t, d, d ? len : 0));
+  else if (code == 130) snprintf(peer_res, sizeof(peer_res), "J");
+  else if (code == 136) snprintf(peer_res, sizeof(peer_res), "F");
+  else snprintf(peer_res, sizeof(peer_res), "E%u", code);
+  return COAP_RESPONSE_OK;
+}
+
+static void peer(void) {
+  int b2 = !strcmp(vtok[1], "b2");
+  body_len = (size_t)atol(vtok[2]);
+  long seed = atol(vtok[3]);
+  int szx_cfg = atoi(vtok[4]), single = atoi(vtok[5]);
+  peer_seed = seed;
+  body = (uint8_t *)malloc(body_len ? body_len : 1);
+  vn_now = 1000;
+  vn_log_reset();
+  vn_nnodes = 0;
+  vn_prng_seed((uint64_t)seed * 7919u + body_len);
+  srv = coap_new_context(NULL);
+  cli = coap_new_context(NULL);
+  coap_context_t *me = b2 ? cli : srv;
+  coap_context_set_block_mode(me, COAP_BLOCK_USE_LIBCOAP | (single ? COAP_BLOCK_SINGLE_BODY : 0));
+  if (szx_cfg != 7) coap_context_set_max_block_size(me, (size_t)16 << szx_cfg);
+  ep = vn_new_server_ep(srv);
+  coap_resource_t *r = coap_resource_init(coap_make_str_const("t"), 0);
+  coap_register_request_handler(r, COAP_REQUEST_PUT, hnd_put_peer);
+  coap_add_resource(srv, r);
+  coap_resource_t *ru = coap_resource_init(coap_make_str_const("u"), 0);
+  coap_register_request_handler(ru, COAP_REQUEST_PUT, hnd_put_peer);
+  coap_add_resource(srv, ru);
+  coap_register_response_handler(cli, hnd_resp_peer);
+  coap_address_t peer_addr;
+  vn_addr4(&peer_addr, 0x0a000001u, 40000);
+  uint8_t tok[8] = {0x77};
+  size_t toklen = 1;
+  if (b2) {
+    /* the real client asks (NON, so that nothing is retransmitted); we play the server */
+    cs = vn_new_client(cli, &ep->bind_addr);
+    coap_pdu_t *p = coap_new_pdu(COAP_MESSAGE_NON, COAP_REQUEST_CODE_GET, cs);
+    coap_add_token(p, toklen, tok);
+    coap_add_option(p, COAP_OPTION_URI_PATH, 1, (const uint8_t *)"t");
+    coap_send(cs, p);
+  }
+  unsigned mid = 100;
+  for (int i = 6; i < vntok; i++) {
+    if (b2 && cs->lg_crcv == NULL) {
+      /* the previous block ended the transfer (delivered / refused): the application asks again */
+      coap_pdu_t *g = coap_new_pdu(COAP_MESSAGE_NON, COAP_REQUEST_CODE_GET, cs);
+      coap_add_token(g, toklen, tok);
+      coap_add_option(g, COAP_OPTION_URI_PATH, 1, (const uint8_t *)"t");
+      coap_send(cs, g);
+    }
+    unsigned num, m, szx;
+    long off, len;
+    char size_s[32], tag_s[32];
+    if (sscanf(vtok[i], "%u/%u/%u/%31[^/]/%ld/%ld/%31s", &num, &m, &szx, size_s, &off, &len, tag_s) != 7) {
+      printf("BADITEM ");
+      continue;
+    }
+    int res_u = 0;
+    size_t tl = strlen(tag_s);
+    if (tl > 0 && tag_s[tl - 1] == 'u') {          /* "<n>u": the request goes to resource u */
+      res_u = 1;
+      tag_s[tl - 1] = 0;
+      if (tl == 1) strcpy(tag_s, "-");
+    }
+    if (off < 0) off = 0;
+    if ((size_t)off > body_len) off = (long)body_len;
+    if (len < 0) len = 0;
+    if ((size_t)(off + len) > body_len) len = (long)(body_len - (size_t)off);
+    coap_pdu_t *p = coap_pdu_init(COAP_MESSAGE_NON, b2 ? COAP_RESPONSE_CODE_CONTENT : COAP_REQUEST_CODE_PUT,
+                                  (coap_mid_t)(mid++), 2048);
+    uint8_t buf[8];
+    coap_add_token(p, toklen, tok);
+    if (b2) {
+      if (strcmp(tag_s, "-")) {
+        unsigned long long e = strtoull(tag_s, NULL, 10);
+        coap_add_option(p, COAP_OPTION_ETAG, coap_encode_var_safe8(buf, sizeof(buf), e), buf);
+      }
+      coap_add_option(p, COAP_OPTION_BLOCK2,
+                      coap_encode_var_safe(buf, sizeof(buf), (num << 4) | (m << 3) | szx), buf);
+      if (strcmp(size_s, "-"))
+        coap_add_option(p, COAP_OPTION_SIZE2,
+                        coap_encode_var_safe(buf, sizeof(buf), (unsigned)atol(size_s)), buf);
+    } else {
+      coap_add_option(p, COAP_OPTION_URI_PATH, 1, (const uint8_t *)(res_u ? "u" : "t"));
+      coap_add_option(p, COAP_OPTION_BLOCK1,
+                      coap_encode_var_safe(buf, sizeof(buf), (num << 4) | (m << 3) | szx), buf);
+      if (strcmp(size_s, "-"))
+        coap_add_option(p, COAP_OPTION_SIZE1,
+                        coap_encode_var_safe(buf, sizeof(buf), (unsigned)atol(size_s)), buf);
+      if (strcmp(tag_s, "-")) {
+        unsigned long t = strtoul(tag_s, NULL, 10);
+        coap_add_option(p, COAP_OPTION_RTAG, coap_encode_var_safe(buf, sizeof(buf), (unsigned)t), buf);
+      }
+    }
+    {
+      unsigned long t = (strcmp(tag_s, "-") ? strtoul(tag_s, NULL, 10) : 0) + (res_u ? 50 : 0);
+      for (long q = 0; q < len; q++) body[q] = peer_byte(t, (size_t)(off + q));
+      if (len > 0) coap_add_data(p, (size_t)len, body);
+    }
+    size_t hs = coap_pdu_encode_header(p, COAP_PROTO_UDP);
+    size_t first = vn_nout;
+    peer_res[0] = 0;
+    if (b2) vn_inject_session(cli, cs, p->token - hs, hs + p->used_size);
+    else vn_inject_ep(srv, ep, &peer_addr, NULL, p->token - hs, hs + p->used_size);
+    coap_delete_pdu(p);
+    if (peer_res[0]) {
+      printf("%s ", peer_res);
+    } else if (b2) {
+      printf("C ");
+    } else {
+      /* the server's reply decides */
+      unsigned code = 0;
+      for (size_t k = first; k < vn_nout; k++)
+        if (vn_out[k].ctx == srv && vn_out[k].len >= 4) code = vn_out[k].data[1];
+      if (code == 136) printf("F ");
+      else if (code == 128) printf("J ");
+      else if (code == 95 || code == 0) printf("C ");
+      else printf("E%u ", code);
+    }
+  }
+  printf("END\n");
+  if (b2) { vn_unregister_client(cs); coap_session_release(cs); }
+  coap_free_context(cli);
+  coap_free_context(srv);
+  free(body);
+  body = NULL;
+  free(body2);
+  body2 = NULL;
+  body2_len = 0;
 }
 
 int main(void) {
@@ -316,6 +550,7 @@ int main(void) {
   while (next_case(stdin)) {
     if (vntok == 0) { puts(""); continue; }
     if (!strcmp(vtok[0], "e2e") && vntok >= 12) e2e();
+    else if (!strcmp(vtok[0], "peer") && vntok >= 6) peer();
     else puts("ERROR unknown command");
     fflush(stdout);
   }
